@@ -41,6 +41,8 @@ class Result:
 
     def add(self, rule, key, msg, where=None, detail=None):
         key = re.sub(r"#\d+", "", key)
+        key = re.sub(r" object at 0x[0-9a-fA-F]+", "", key)      # keys are stable across runs: no object addresses
+        key = re.sub(r"0x[0-9a-fA-F]{8,}", "0x", key)
         full = "%s/%s/%s" % (self.pid, rule, key)
         if any(f.key == full for f in self.findings):
             return
